@@ -30,6 +30,7 @@ type Case struct {
 	Stmt       gen.Stmt        `json:"stmt"`
 	OnlyUpdate bool            `json:"only_care_update_columns"`
 	Via        string          `json:"via"`
+	AutoStep   int64           `json:"auto_increment_increment,omitempty"` // the server's key step (0 = 1); it differs between cases of one process
 	BufReuse   bool            `json:"buffer_reuse"` // the engine hands out []byte cells that are only valid until the next row
 }
 
@@ -216,6 +217,8 @@ func execute(c Case) *pt.Failure {
 	env.CleanUndo()
 	atenv.UndoConfig("json", "None", true, c.OnlyUpdate)
 	env.Srv.SetBufferReuse(c.BufReuse)
+	env.Srv.SetAutoIncStep(c.AutoStep)
+	defer env.Srv.SetAutoIncStep(1)
 	defer env.Srv.SetBufferReuse(false)
 	n := atenv.NextCase()
 	var names []string
@@ -415,7 +418,7 @@ func stmtOptions() gen.StmtOptions {
 }
 
 func record(test string, c Case) {
-	labels := []string{"stmt:" + c.Stmt.Kind, fmt.Sprintf("only-update-cols:%v", c.OnlyUpdate), "via:" + c.Via, fmt.Sprintf("buffer-reuse:%v", c.BufReuse)}
+	labels := []string{"stmt:" + c.Stmt.Kind, fmt.Sprintf("only-update-cols:%v", c.OnlyUpdate), "via:" + c.Via, fmt.Sprintf("buffer-reuse:%v", c.BufReuse), fmt.Sprintf("auto-step:%d", c.AutoStep)}
 	for _, cl := range c.Stmt.Classes {
 		labels = append(labels, "class:"+cl)
 	}
@@ -460,7 +463,7 @@ func TestPropImages(t *testing.T) {
 	ctx.Check(t, func(rt *rapid.T) {
 		tables := []gen.TableSpec{gen.DrawTable(rt, 0)}
 		c := Case{Tables: tables, Stmt: gen.DrawStmt(rt, tables, stmtOptions()), OnlyUpdate: rapid.Bool().Draw(rt, "onlyUpdate"),
-			Via: rapid.SampledFrom([]string{"db", "conn"}).Draw(rt, "via"), BufReuse: rapid.Bool().Draw(rt, "bufReuse")}
+			Via: rapid.SampledFrom([]string{"db", "conn"}).Draw(rt, "via"), BufReuse: rapid.Bool().Draw(rt, "bufReuse"), AutoStep: rapid.SampledFrom([]int64{0, 0, 1, 2, 5}).Draw(rt, "autoStep")}
 		fl := runCase(c)
 		record("images", c)
 		ctx.Judge(rt, "images", fl, c)
